@@ -189,22 +189,46 @@ theorem pending_clr_lt (f : Int) : ∀ vs : List Var, (∃ v ∈ vs, v.deferred 
 theorem pending_le_length (vs : List Var) : pending vs ≤ vs.length := by
   unfold pending; exact List.length_filter_le _ _
 
-/-! ### the monitor on the trigger observations of one firing -/
+/-! ### the monitor on the trigger items of one firing -/
+
+theorem lapse_fields (j : Mon) (t : Int) :
+    (j.lapse t).ok = j.ok ∧ (j.lapse t).now = j.now ∧ (j.lapse t).target = j.target ∧ (j.lapse t).evented = j.evented
+    ∧ (j.lapse t).rate = j.rate ∧ (j.lapse t).cur = j.cur ∧ (j.lapse t).lastChange = j.lastChange
+    ∧ (j.lapse t).lastTrig = j.lastTrig ∧ (j.lapse t).awaiting = j.awaiting ∧ (j.lapse t).pendingChg = j.pendingChg := by
+  unfold Mon.lapse; split <;> exact ⟨rfl, rfl, rfl, rfl, rfl, rfl, rfl, rfl, rfl, rfl⟩
+
+/-- what lapsing does to one entry -/
+def lapsed (c : Bool) (sm : SubMon) : SubMon := if c then { sm with credit := 0 } else sm
+
+theorem lapse_subs (j : Mon) (t : Int) : (j.lapse t).subs = j.subs.map (lapsed (decide (j.now < t))) := by
+  unfold Mon.lapse
+  by_cases h : j.now < t
+  · rw [if_pos h]; simp [lapsed, h]
+  · rw [if_neg h]
+    have : lapsed (decide (j.now < t)) = id := by funext sm; simp [lapsed, h]
+    rw [this, List.map_id]
 
 theorem trig_step (j : Mon) (x : Nat) (t : Int) (h1 : j.evented.getD x false = true)
     (hnow : j.now ≤ t) (htgt : t ≤ j.target)
-    (h3 : j.lastTrig[x]? = some none ∨ ∃ u, j.lastTrig[x]? = some (some u) ∧ u + (j.rate.getD x 0 : Int) ≤ t) :
-    j.onObs (.trig x t) = j.triggered x t := by
-  have h2 : timeOk j t = true := by simp [timeOk, hnow, htgt]
-  simp only [Mon.onObs, Mon.triggered, h1, h2]
+    (h3 : j.lastTrig[x]? = some none ∨ ∃ u, j.lastTrig[x]? = some (some u) ∧ u + (j.rate.getD x 0 : Int) ≤ t)
+    (hp : ∃ n, j.pendingChg[x]? = some n ∧ 0 < n) :
+    j.onObs (.trig x t) = (j.lapse t).triggered x t := by
+  obtain ⟨f1, f2, f3, f4, f5, _, _, f8, _, f10⟩ := lapse_fields j t
+  have h2 : timeOk (j.lapse t) t = true := by simp [timeOk, f2, f3, hnow, htgt]
+  obtain ⟨n, hn, hpos⟩ := hp
+  have hpd : decide (0 < (j.lapse t).pendingChg.getD x 0) = true := by
+    rw [f10]; simp [List.getD_eq_getElem?_getD, hn, hpos]
+  simp only [Mon.onObs, Mon.trigAt, Mon.triggered, f4, h1, h2, hpd]
   congr 1
+  rw [f8, f5]
   rcases h3 with e | ⟨u, e, hu⟩
   · rw [e]; simp
   · rw [e]; simp only [decide_eq_true hu]; simp
 
 theorem trigs_ok (f : Int) (D : List Nat) : ∀ (j : Mon), D.Nodup → j.now ≤ f → f ≤ j.target →
     (∀ x ∈ D, j.evented.getD x false = true ∧
-      (j.lastTrig[x]? = some none ∨ ∃ u, j.lastTrig[x]? = some (some u) ∧ u + (j.rate.getD x 0 : Int) ≤ f)) →
+      (j.lastTrig[x]? = some none ∨ ∃ u, j.lastTrig[x]? = some (some u) ∧ u + (j.rate.getD x 0 : Int) ≤ f)
+      ∧ ∃ n, j.pendingChg[x]? = some n ∧ 0 < n) →
     (j.obsRun (D.map (fun x => Obs.trig x f))).ok = j.ok
     ∧ (D ≠ [] → (j.obsRun (D.map (fun x => Obs.trig x f))).now = f)
     ∧ (j.obsRun (D.map (fun x => Obs.trig x f))).target = j.target
@@ -215,63 +239,97 @@ theorem trigs_ok (f : Int) (D : List Nat) : ∀ (j : Mon), D.Nodup → j.now ≤
     ∧ (j.obsRun (D.map (fun x => Obs.trig x f))).awaiting = j.awaiting
     ∧ (∀ x ∈ D, (j.obsRun (D.map (fun x => Obs.trig x f))).lastTrig[x]? = some (some f))
     ∧ (∀ x, x ∉ D → (j.obsRun (D.map (fun x => Obs.trig x f))).lastTrig[x]? = j.lastTrig[x]?)
-    ∧ (j.obsRun (D.map (fun x => Obs.trig x f))).subs
-        = j.subs.map (fun s => { s with credit := s.credit + D.length }) := by
+    ∧ (∃ g : SubMon → SubMon,
+        (∀ sm, (g sm).alive = sm.alive ∧ (g sm).url = sm.url ∧ (g sm).nextSeq = sm.nextSeq ∧ (g sm).expires = sm.expires
+          ∧ (g sm).gotInitial = sm.gotInitial ∧ (g sm).lastVals = sm.lastVals
+          ∧ (g sm).credit = (if j.now < f ∧ D ≠ [] then 0 else sm.credit) + D.length)
+        ∧ (j.obsRun (D.map (fun x => Obs.trig x f))).subs = j.subs.map g)
+    ∧ (∀ x, x ∉ D → (j.obsRun (D.map (fun x => Obs.trig x f))).pendingChg[x]? = j.pendingChg[x]?)
+    ∧ (∀ x ∈ D, ∃ n, (j.obsRun (D.map (fun x => Obs.trig x f))).pendingChg[x]? = some n) := by
   induction D with
   | nil =>
     intro j _ _ _ _
-    refine ⟨rfl, fun h => absurd rfl h, rfl, rfl, rfl, rfl, rfl, rfl, fun x hx => (by cases hx), fun _ _ => rfl, ?_⟩
-    show j.subs = _
-    simp
+    refine ⟨rfl, fun h => absurd rfl h, rfl, rfl, rfl, rfl, rfl, rfl, fun x hx => (by cases hx), fun _ _ => rfl,
+      ⟨id, fun sm => ⟨rfl, rfl, rfl, rfl, rfl, rfl, by simp⟩, by show j.subs = _; simp⟩, fun _ _ => rfl,
+      fun x hx => (by cases hx)⟩
   | cons x D ih =>
     intro j hnd hnow htgt hD
-    obtain ⟨hx1, hx3⟩ := hD x List.mem_cons_self
+    obtain ⟨hx1, hx3, hxp⟩ := hD x List.mem_cons_self
     have hxD : x ∉ D := (List.nodup_cons.mp hnd).1
     have hnd' : D.Nodup := (List.nodup_cons.mp hnd).2
-    have hstep := trig_step j x f hx1 hnow htgt hx3
+    have hstep := trig_step j x f hx1 hnow htgt hx3 hxp
+    obtain ⟨f1, f2, f3, f4, f5, f6, f7, f8, f9, f10⟩ := lapse_fields j f
     have hlt : x < j.lastTrig.length := by
       rcases hx3 with e | ⟨u, e, _⟩ <;> exact (List.getElem?_eq_some_iff.mp e).1
-    have hrun : j.obsRun ((x :: D).map (fun x => Obs.trig x f)) = (j.triggered x f).obsRun (D.map (fun x => Obs.trig x f)) := by
+    have hrun : j.obsRun ((x :: D).map (fun x => Obs.trig x f))
+        = ((j.lapse f).triggered x f).obsRun (D.map (fun x => Obs.trig x f)) := by
       show (j.onObs (.trig x f)).obsRun _ = _
       rw [hstep]
     rw [hrun]
-    have ih' := ih (j.triggered x f) hnd' (Int.le_refl f) htgt (by
+    have ih' := ih ((j.lapse f).triggered x f) hnd' (Int.le_refl f) (by show f ≤ (j.lapse f).target; rw [f3]; exact htgt) (by
       intro y hy
       have hne : x ≠ y := fun e => hxD (e ▸ hy)
-      obtain ⟨hy1, hy3⟩ := hD y (List.mem_cons_of_mem _ hy)
-      refine ⟨hy1, ?_⟩
-      rcases hy3 with e | ⟨u, e, hu⟩
-      · left
-        show (j.lastTrig.set x (some f))[y]? = some none
-        rw [List.getElem?_set_ne hne]; exact e
-      · right
-        refine ⟨u, ?_, hu⟩
-        show (j.lastTrig.set x (some f))[y]? = _
-        rw [List.getElem?_set_ne hne]; exact e)
-    obtain ⟨h1, h2, h3, h4, h5, h6, h7, h8, h9, h10, h11⟩ := ih'
-    refine ⟨h1, fun _ => ?_, h3, h4, h5, h6, h7, h8, ?_, ?_, ?_⟩
+      obtain ⟨hy1, hy3, hyp⟩ := hD y (List.mem_cons_of_mem _ hy)
+      refine ⟨by show (j.lapse f).evented.getD y false = true; rw [f4]; exact hy1, ?_, ?_⟩
+      · rcases hy3 with e | ⟨u, e, hu⟩
+        · left
+          show ((j.lapse f).lastTrig.set x (some f))[y]? = some none
+          rw [List.getElem?_set_ne hne, f8]; exact e
+        · right
+          refine ⟨u, ?_, by show u + (((j.lapse f).rate.getD y 0 : Nat) : Int) ≤ f; rw [f5]; exact hu⟩
+          show ((j.lapse f).lastTrig.set x (some f))[y]? = _
+          rw [List.getElem?_set_ne hne, f8]; exact e
+      · obtain ⟨n, hn, hpos⟩ := hyp
+        exact ⟨n, by show ((j.lapse f).pendingChg.modify x (· - 1))[y]? = some n
+                     rw [pc_modify_ne _ _ _ _ (Ne.symm hne), f10]; exact hn, hpos⟩)
+    obtain ⟨h1, h2, h3, h4, h5, h6, h7, h8, h9, h10, ⟨g2, hg2, h11⟩, h12, h13⟩ := ih'
+    refine ⟨h1.trans f1, fun _ => ?_, h3.trans f3, h4.trans f4, h5.trans f5, h6.trans f6, h7.trans f7, h8.trans f9,
+      ?_, ?_, ?_, ?_, ?_⟩
     · by_cases hD0 : D = []
       · subst hD0; rfl
       · exact h2 hD0
     · intro y hy
       rcases List.mem_cons.mp hy with rfl | hy
       · rw [h10 y hxD]
-        show (j.lastTrig.set y (some f))[y]? = _
-        rw [List.getElem?_set_self hlt]
+        show ((j.lapse f).lastTrig.set y (some f))[y]? = _
+        rw [f8, List.getElem?_set_self hlt]
       · exact h9 y hy
     · intro y hy
       have hne : x ≠ y := fun e => hy (e ▸ List.mem_cons_self)
       rw [h10 y (fun h => hy (List.mem_cons_of_mem _ h))]
-      show (j.lastTrig.set x (some f))[y]? = _
-      rw [List.getElem?_set_ne hne]
-    · rw [h11]
-      show (j.subs.map _).map _ = _
-      rw [List.map_map]
-      apply List.map_congr_left
-      intro s _
-      simp only [Function.comp, List.length_cons]
-      congr 1
-      omega
+      show ((j.lapse f).lastTrig.set x (some f))[y]? = _
+      rw [List.getElem?_set_ne hne, f8]
+    · refine ⟨fun sm => g2 { (lapsed (decide (j.now < f)) sm) with credit := (lapsed (decide (j.now < f)) sm).credit + 1 }, ?_, ?_⟩
+      · intro sm
+        obtain ⟨a1, a2, a3, a4, a5, a6, a7⟩ := hg2 { (lapsed (decide (j.now < f)) sm) with credit := (lapsed (decide (j.now < f)) sm).credit + 1 }
+        have hl : ∀ c, (lapsed c sm).alive = sm.alive ∧ (lapsed c sm).url = sm.url ∧ (lapsed c sm).nextSeq = sm.nextSeq
+            ∧ (lapsed c sm).expires = sm.expires ∧ (lapsed c sm).gotInitial = sm.gotInitial ∧ (lapsed c sm).lastVals = sm.lastVals := by
+          intro c; unfold lapsed; split <;> exact ⟨rfl, rfl, rfl, rfl, rfl, rfl⟩
+        obtain ⟨l1, l2, l3, l4, l5, l6⟩ := hl (decide (j.now < f))
+        refine ⟨a1.trans l1, a2.trans l2, a3.trans l3, a4.trans l4, a5.trans l5, a6.trans l6, ?_⟩
+        rw [a7]
+        have hnn : ¬ (((j.lapse f).triggered x f).now < f ∧ D ≠ []) := fun h => absurd h.1 (Int.lt_irrefl f)
+        rw [if_neg hnn]
+        show (lapsed (decide (j.now < f)) sm).credit + 1 + D.length = _
+        by_cases hlt' : j.now < f
+        · rw [if_pos ⟨hlt', by simp⟩]; simp [lapsed, hlt']; omega
+        · rw [if_neg (fun h => hlt' h.1)]; simp [lapsed, hlt']; omega
+      · rw [h11]
+        show ((j.lapse f).subs.map _).map g2 = _
+        rw [lapse_subs, List.map_map, List.map_map]
+        rfl
+    · intro y hy
+      have hne : y ≠ x := fun e => hy (e ▸ List.mem_cons_self)
+      rw [h12 y (fun h => hy (List.mem_cons_of_mem _ h))]
+      show ((j.lapse f).pendingChg.modify x (· - 1))[y]? = _
+      rw [pc_modify_ne _ _ _ _ hne, f10]
+    · intro y hy
+      rcases List.mem_cons.mp hy with rfl | hy
+      · rw [h12 y hxD]
+        obtain ⟨n, hn, _⟩ := hxp
+        exact ⟨n - 1, by show ((j.lapse f).pendingChg.modify y (· - 1))[y]? = _
+                         rw [f10]; exact pc_modify_self _ _ _ _ hn⟩
+      · exact h13 y hy
 
 /-! ### one firing -/
 
@@ -315,11 +373,14 @@ theorem fire_ok (T : Int) (m : State) (j : Mon) (f : Int) (h : RelT T m j)
       obtain ⟨v, hv, hd⟩ := (hDmem x).mp hx
       obtain ⟨e1, e2, _, _⟩ := (h.vars x v hv).dfr f hd
       refine ⟨by rw [h.ev, getD_map_of_getElem? _ _ _ _ _ hv]; exact e1, ?_⟩
-      rcases (h.vars x v hv).trig with e | e
-      · left; exact e
-      · right; refine ⟨v.lastSent, e, ?_⟩
-        rw [h.rate, getD_map_of_getElem? _ _ _ _ _ hv]; omega)
-  obtain ⟨t1, t2, t3, t4, t5, t6, t7, t8, t9, t10, t11⟩ := hT
+      refine ⟨?_, ?_⟩
+      · rcases (h.vars x v hv).trig with e | e
+        · left; exact e
+        · right; refine ⟨v.lastSent, e, ?_⟩
+          rw [h.rate, getD_map_of_getElem? _ _ _ _ _ hv]; omega
+      · obtain ⟨n, hn, hpos⟩ := (h.vars x v hv).pc
+        exact ⟨n, hn, hpos (by rw [hd]; exact fun e => by cases e)⟩)
+  obtain ⟨t1, t2, t3, t4, t5, t6, t7, t8, t9, t10, ⟨g, hg, t11⟩, t12, t13⟩ := hT
   -- the fan-outs
   have hrun : j.obsRun (fire m f).2
       = (j.obsRun ((dueIdx f 0 m.vars).map (fun x => Obs.trig x f))).obsRun
@@ -336,7 +397,7 @@ theorem fire_ok (T : Int) (m : State) (j : Mon) (f : Int) (h : RelT T m j)
         apply List.map_congr_left; intro v _; exact (clr_value f v).symm)
     (by rw [t11]
         exact SubsOk.congr (m' := { m with now := f, vars := m.vars.map (clr f) }) _ h.subs rfl rfl
-          (by show m.now ≤ f; omega) (fun _ => ⟨rfl, rfl, rfl, rfl, rfl⟩))
+          (by show m.now ≤ f; omega) (fun sm => ⟨(hg sm).1, (hg sm).2.1, (hg sm).2.2.1, (hg sm).2.2.2.1, (hg sm).2.2.2.2.1⟩))
     (by intro s _ sm hsm
         rw [t11, List.getElem?_map] at hsm
         cases hj : j.subs[s.sid]? with
@@ -345,7 +406,7 @@ theorem fire_ok (T : Int) (m : State) (j : Mon) (f : Int) (h : RelT T m j)
           rw [hj] at hsm
           simp only [Option.map_some, Option.some.injEq] at hsm
           subst hsm
-          show 0 + _ ≤ sm0.credit + _
+          rw [(hg sm0).2.2.2.2.2.2]
           omega)
   obtain ⟨bf, bnow, bvars, bnsid, bsubs, bcv⟩ := hB
   rw [hrun, hfst]
@@ -361,7 +422,7 @@ theorem fire_ok (T : Int) (m : State) (j : Mon) (f : Int) (h : RelT T m j)
   · rw [bf.cur, t6, h.cur, bvars]; show _ = (m.vars.map (clr f)).map _; rw [List.map_map]
     apply List.map_congr_left; intro v _; exact (clr_value f v).symm
   · rw [bf.lastChange, t7, bvars]; show _ = (m.vars.map (clr f)).length; rw [List.length_map]; exact h.lcLen
-  · rw [bf.lastChange, bf.lastTrig, t7, bvars, bnow]
+  · rw [bf.lastChange, bf.lastTrig, bf.pendingChg, t7, bvars, bnow]
     intro i v' hv'
     have hv'' : (m.vars.map (clr f))[i]? = some v' := hv'
     rw [List.getElem?_map] at hv''
@@ -376,14 +437,16 @@ theorem fire_ok (T : Int) (m : State) (j : Mon) (f : Int) (h : RelT T m j)
       · have hi : i ∈ dueIdx f 0 m.vars := (hDmem i).mpr ⟨v, hv, hd⟩
         have e : clr f v = { v with deferred := none, lastSent := f } := by simp [clr, hd]
         rw [e]
-        exact ⟨Int.le_refl _, Or.inr (t9 i hi), fun g hg => by cases hg⟩
+        obtain ⟨n, hn⟩ := t13 i hi
+        exact ⟨Int.le_refl _, Or.inr (t9 i hi), fun g hg => (by cases hg), ⟨n, hn, fun hd' => absurd rfl hd'⟩⟩
       · have hi : i ∉ dueIdx f 0 m.vars := by
           intro hi
           obtain ⟨w, hw, hwd⟩ := (hDmem i).mp hi
           rw [hv] at hw; cases hw; exact hd hwd
         have e : clr f v = v := by simp [clr, hd]
         rw [e]
-        refine ⟨by have := hvo.sent_le; show v.lastSent ≤ f; omega, by rw [t10 i hi]; exact hvo.trig, fun g hg => ?_⟩
+        refine ⟨by have := hvo.sent_le; show v.lastSent ≤ f; omega, by rw [t10 i hi]; exact hvo.trig, fun g hg => ?_,
+          by rw [t12 i hi]; exact hvo.pc⟩
         obtain ⟨a1, a2, a3, _⟩ := hvo.dfr g hg
         have := hle i v g hv hg
         have hne : g ≠ f := fun e => hd (e ▸ hg)
@@ -416,7 +479,7 @@ theorem RelT.finish {T : Int} {m : State} {j : Mon} (h : RelT T m j)
   have hvo := h.vars i v hv
   exact ⟨by have := hvo.sent_le; show v.lastSent ≤ T; omega, hvo.trig, fun g hg => by
     obtain ⟨a1, a2, a3, _⟩ := hvo.dfr g hg
-    exact ⟨a1, a2, a3, hd i v g hv hg⟩⟩
+    exact ⟨a1, a2, a3, hd i v g hv hg⟩, hvo.pc⟩
 
 theorem advance_ok (T : Int) : ∀ (fuel : Nat) (m : State) (j : Mon), RelT T m j → pending m.vars < fuel →
     Rel (advance fuel m T).1 (j.obsRun (advance fuel m T).2) := by
